@@ -126,11 +126,18 @@ var sigs = map[string]sig{
 	"isRedactableFieldPatternInArray": {},
 	"isInSearchStage":                 {},
 	"augmentOp":                       {params: map[string]string{"op": "Table", "v": "JObj"}, results: []string{"Table"}, locals: map[string]string{"augmentedOp": "Table"}},
+	"redactQueryValues":               {params: map[string]string{"parentCoreOp": "Meta"}, locals: map[string]string{"coreOp": "Meta"}},
+	"redactArrayValuesWithKey":        {},
+	"redactArrayValues":               {},
 }
+
+// functions that call one another: emitted in one `mutual` block, all with a fuel argument
+var mutualGroups = [][]string{{"redactQueryValues", "redactArrayValuesWithKey"}}
 
 // emission order (callees first)
 var order = []string{"reMatchesAnyKeyInPath", "redactString", "IsEmail", "withinSearchUserDocument", "RemoveElementAfter", "RemoveElementsBeforeIncluding",
-	"traverseMapPath", "getOp", "redactScalarValue", "isFieldNameValue", "isRedactableFieldPatternInArray", "isInSearchStage", "augmentOp"}
+	"traverseMapPath", "getOp", "redactScalarValue", "isFieldNameValue", "isRedactableFieldPatternInArray", "isInSearchStage", "augmentOp",
+	"redactQueryValues", "redactArrayValuesWithKey", "redactArrayValues"}
 
 type gname struct {
 	lean string
@@ -724,6 +731,11 @@ func (x *tr) call(c *ast.CallExpr) ex {
 		if a[0].t.k == "StrList" && a[1].t.k == "Str" {
 			return ex{"(" + a[0].s + ".contains " + a[1].s + ")", T("Bool"), anyPartial(a)}
 		}
+	case "HashName":
+		a := args()
+		if len(a) == 1 && a[0].t.k == "Str" {
+			return ex{"(hashName g.redactedString " + a[0].s + ")", T("Str"), a[0].partial}
+		}
 	case "orderedmap.NewOrderedMap":
 		return ex{"[]", T("NewMap"), false}
 	}
@@ -849,12 +861,64 @@ func (x *tr) define(ind int, n ast.Node, lhs []ast.Expr, rhs []ast.Expr) {
 }
 
 func (x *tr) assign(ind int, s *ast.AssignStmt) {
+	if len(s.Lhs) == 2 && len(s.Rhs) == 1 && s.Tok == token.ASSIGN {
+		// a, b = f()
+		var v ex
+		if ta, ok := s.Rhs[0].(*ast.TypeAssertExpr); ok {
+			v = x.assertOk(s, ta)
+		} else {
+			v = x.expr(s.Rhs[0])
+		}
+		if v.t.k != "Tuple" || len(v.t.elems) != 2 {
+			x.bad(s, "two-value assignment from "+v.t.String())
+		}
+		names := []string{}
+		for i, l := range s.Lhs {
+			id, ok := l.(*ast.Ident)
+			if !ok {
+				x.bad(s, "assignment to a non-variable")
+			}
+			if id.Name == "_" {
+				names = append(names, "_")
+				continue
+			}
+			g, ok := x.lookup(id.Name)
+			if !ok || !same(g.t, v.t.elems[i]) {
+				x.bad(s, "two-value assignment to "+id.Name)
+			}
+			names = append(names, g.lean)
+		}
+		x.emit(ind, "("+strings.Join(names, ", ")+") := "+v.s)
+		return
+	}
 	if len(s.Lhs) != 1 || len(s.Rhs) != 1 {
 		x.bad(s, "multi-assignment")
 	}
+	if ie, ok := s.Lhs[0].(*ast.IndexExpr); ok && s.Tok == token.ASSIGN {
+		// xs[i] = e on a local slice: the variable is rebound
+		id, ok := ie.X.(*ast.Ident)
+		if !ok {
+			x.bad(s, "element store into a non-variable")
+		}
+		g, ok := x.lookup(id.Name)
+		if !ok || (g.t.k != "JList" && g.t.k != "StrList") {
+			x.bad(s, "element store into "+id.Name)
+		}
+		et := T("J")
+		if g.t.k == "StrList" {
+			et = T("Str")
+		}
+		i := x.expr(ie.Index)
+		if i.t.k != "Int" {
+			x.bad(s, "index type")
+		}
+		v := x.coerce(s, x.expr(s.Rhs[0]), et)
+		x.emit(ind, g.lean+" := (← setIdx "+g.lean+" "+i.s+" "+v.s+")")
+		return
+	}
 	id, ok := s.Lhs[0].(*ast.Ident)
 	if !ok {
-		x.bad(s, "assignment to a non-variable (element / field stores are outside the subset)")
+		x.bad(s, "assignment to a non-variable (field stores are outside the subset)")
 	}
 	g, ok := x.lookup(id.Name)
 	if !ok {
@@ -1381,6 +1445,11 @@ func mutated(fd *ast.FuncDecl) map[string]bool {
 					if id, ok := l.(*ast.Ident); ok {
 						m[id.Name] = true
 					}
+					if ie, ok := l.(*ast.IndexExpr); ok {
+						if id, ok := ie.X.(*ast.Ident); ok {
+							m[id.Name] = true
+						}
+					}
 				}
 			}
 		case *ast.IncDecStmt:
@@ -1578,6 +1647,16 @@ func main() {
 			fi.fuel = true
 		}
 	}
+	group := map[string]int{}
+	for gi, grp := range mutualGroups {
+		for _, n := range grp {
+			if fi, ok := x.fns[n]; ok {
+				fi.rec = true
+				fi.fuel = true
+				group[n] = gi + 1
+			}
+		}
+	}
 	for changed := true; changed; {
 		changed = false
 		for n, fi := range x.fns {
@@ -1599,7 +1678,7 @@ func main() {
 	}
 	for n := range x.fns {
 		for c := range calls[n] {
-			if c != n && pos[c] >= pos[n] {
+			if c != n && pos[c] >= pos[n] && !(group[c] != 0 && group[c] == group[n]) {
 				failed[n] = "calls " + c + ", which is not emitted before it (mutual recursion is outside the subset)"
 			}
 		}
@@ -1645,11 +1724,46 @@ func main() {
 		fmt.Fprintf(&b, "def %s : Str := %s.toList\n", litNames[l], strconv.Quote(l))
 	}
 	b.WriteString("\n")
-	for _, n := range order {
-		if t, ok := texts[n]; ok {
-			b.WriteString(t)
-			b.WriteString("\n")
+	// a mutual group is emitted only when every member was translated
+	for _, grp := range mutualGroups {
+		all := true
+		for _, n := range grp {
+			if _, ok := texts[n]; !ok {
+				all = false
+			}
 		}
+		if !all {
+			for _, n := range grp {
+				if _, ok := texts[n]; ok {
+					delete(texts, n)
+					failed[n] = "its mutual group could not be translated as a whole"
+				}
+			}
+		}
+	}
+	okList = okList[:0]
+	inMutual := 0
+	for _, n := range order {
+		t, ok := texts[n]
+		if !ok {
+			continue
+		}
+		okList = append(okList, n)
+		if group[n] != 0 && inMutual != group[n] {
+			if inMutual != 0 {
+				b.WriteString("end\n\n")
+			}
+			b.WriteString("mutual\n")
+			inMutual = group[n]
+		} else if group[n] == 0 && inMutual != 0 {
+			b.WriteString("end\n\n")
+			inMutual = 0
+		}
+		b.WriteString(t)
+		b.WriteString("\n")
+	}
+	if inMutual != 0 {
+		b.WriteString("end\n\n")
 	}
 	out := map[string]any{"lean": b.String(), "ok": okList, "failed": failed}
 	enc := json.NewEncoder(os.Stdout)
